@@ -1034,6 +1034,12 @@ def run_c20(spec: Dict[str, Any]) -> "tuple[List[Violation], Dict[str, Any]]":
     is_exc = ok and isinstance(target, type) and issubclass(target, BaseException)
     obs: Dict[str, Any] = {"resolved": ok, "is_exc": bool(is_exc), "outcomes": []}
     pre_loaded = {m: (m in sys.modules) for m in NOT_LOADED}
+    for pm, pn in spec.get("prelude", []):
+        try:
+            ser.exception_to_python(payload_dict(pm, pn, ["earlier"], 0, "cause"))  # type: ignore[arg-type]
+        except BaseException:  # noqa: BLE001  (judged when it is a case of its own)
+            pass
+    obs["preludes"] = len(spec.get("prelude", []))
     for entry in spec["entries"]:
         p = payload_dict(module, name, args, spec["nest"], spec["where"], spec["raw_args"] if "raw_args" in spec else _NO_RAW)
         del TRAP_LOG[:]
@@ -1229,6 +1235,13 @@ class C20(Check):
                 entries = entries + ["wrapper", "wrapper_validate", "wrapper_pickle"]
             case = {"module": module, "name": name, "args": rng.choice(ARGS_POOL), "nest": nest,
                     "where": rng.choice(["cause", "context", "mixed"]), "entries": entries}
+            if "raw_args" not in case and name and rng.random() < 0.2:
+                # other stored errors loaded earlier in the same process whose module + type concatenate to the same
+                # dotted string, split elsewhere: each load is judged by its own (module, type)
+                joined = name if module is None else f"{module}.{name}"
+                parts = joined.split(".")
+                alts: List[Any] = [[None, joined]] + [[".".join(parts[:j]), ".".join(parts[j:])] for j in range(1, len(parts))]
+                case["prelude"] = [a for a in alts if a != [module, name]][:4]
             if rng.random() < 0.08:
                 # stored "arguments" that are not a sequence
                 case["raw_args"] = rng.choice([5, 1.5, True, None, "bare message", {"a": 1}, 0, ""])
